@@ -2,7 +2,7 @@ SPECIFICATION GenSpec
 CONSTANTS
   PathVars = 2
   QueryParams = 8
-  BodyLeaves = 8
+  BodyLeaves = 12
   Radius = 2
 INVARIANTS Emit
 CHECK_DEADLOCK FALSE
